@@ -1001,9 +1001,9 @@ fn generate(ctx: &Ctx) {
   }
   run_enc_part(ctx, "encoders: general, two signatures", &two);
   let mut three = Vec::new();
-  let (set3, pays3): (&Vec<(u8, u8)>, Vec<u8>) = if thorough { (&all, vec![0, 2, 3, 5, 6, 7, 12]) } else { (&reduced, (0..n_pay).collect()) };
+  let set3: &Vec<(u8, u8)> = if thorough { &all } else { &reduced };
   for enc in 6..8u8 {
-    for &payload in &pays3 {
+    for payload in 0..n_pay {
       for a in set3 {
         for b in set3 {
           for c in set3 {
@@ -1015,11 +1015,9 @@ fn generate(ctx: &Ctx) {
   }
   run_enc_part(ctx, "encoders: general, three signatures", &three);
   ctx.bound("general_recipients", 3);
-  ctx.bound("three_recipient_alphabet", if thorough { "all 35 (placement, b64) pairs x 7 payloads" } else { "8 (placement, b64) pairs x 14 payloads" });
+  ctx.bound("three_recipient_alphabet", if thorough { "all 35 (placement, b64) pairs" } else { "8 (placement, b64) pairs: placements 0-3 x b64 {absent, false+crit}" });
   if !thorough {
     ctx.cap_hit("encoders: three-signature cases use the reduced 8-pair recipient alphabet in the quick tier (one- and two-signature products are complete)");
-  } else {
-    ctx.cap_hit("encoders: three-signature cases use 7 of the 14 payloads (all 35^3 recipient combinations); one- and two-signature products are complete");
   }
 
   // ---------- (b)
